@@ -24,7 +24,7 @@ var c08SkelVerbs = SkelVerbs(
 	"RemoveSelf", "Resolve", "deactivateRevision", "Establish", "Pre", "Post",
 	"SelectComposition", "Fetch", "Validate", "Configure", "Compose",
 	"WasDeleted", "IsPaused", "WasCreated", "IsControlledBy",
-	"cancel",
+	"cancel", "resolveSelector",
 )
 
 func init() {
@@ -40,6 +40,8 @@ func init() {
 		sb.WriteString(SkelDef("c08SkelRemoveSelf", d+"pkg/revision/dependency.go", "PackageDependencyManager", "RemoveSelf", o))
 		sb.WriteString(SkelDef("c08SkelResolve", d+"pkg/revision/dependency.go", "PackageDependencyManager", "Resolve", o))
 		sb.WriteString(SkelDef("c08SkelUsage", d+"apiextensions/usage/reconciler.go", "Reconciler", "Reconcile", o))
+		sb.WriteString(SkelDef("c08SkelSelResolve", d+"apiextensions/usage/selector.go", "apiSelectorResolver", "resolveSelectors", o))
+		sb.WriteString(SkelDef("c08SkelSelResolveOne", d+"apiextensions/usage/selector.go", "apiSelectorResolver", "resolveSelector", o))
 		sb.WriteString(SkelDef("c08SkelEngineStop", "internal/engine/engine.go", "ControllerEngine", "Stop", o))
 		sb.WriteString(SkelDef("c08SkelEngineStart", "internal/engine/engine.go", "ControllerEngine", "Start", o))
 		return sb.String()
